@@ -227,7 +227,11 @@ def run(ctx):
     texts += ['From foo\na: 1\n', 'a: 1\na: 2\na: 1\n', 'a: 1\n\nFrom x\nb: 2\n', 'a:1', 'A:b:c d\n', ':x\na: 1\n', ' c\na: 1\n']
     fails = ctx.prop('prop:lossless', texts, p_lossless)
     # texts beyond 64 KiB, 1 MiB and 2 MiB that end in every way a file ends
-    fails += ctx.prop('prop:lossless:large', big_texts(rng, [70000, 70000, 70000, 300000, 300000, 1100000, 1100000, 1100000, 2200000, 2200000] + ([] if ctx.quick() else [5000000, 17000000, 17000000])), p_big)
+    bigs = big_texts(rng, [70000, 70000, 70000, 300000, 300000, 1100000, 1100000, 1100000, 2200000, 2200000] + ([] if ctx.quick() else [5000000, 17000000, 17000000]))
+    # one paragraph of thousands of fields; one field of thousands of continuation lines
+    bigs.append('\n'.join('Field-%d: value%d w%d' % (i, i, i) for i in range(5000)) + '\n')
+    bigs.append('Package: p\nDescription: syn\n' + '\n'.join(' line%d of the description' % i for i in range(20000)) + '\nVersion: 1\n')
+    fails += ctx.prop('prop:lossless:large', bigs, p_big)
     # a text that happens to be the name of an existing file (absolute, or relative to the working directory) is a text
     # like any other: one word that is not a field
     import os
